@@ -6,13 +6,20 @@
  *   dep_replay replay  <scenario> <schedules> <trace.ndjson> <meta.ndjson>
  *   dep_replay explore <scenario> <limit>     <trace.ndjson> <meta.ndjson>
  *   dep_replay stress  <scenario> <runs>      <trace.ndjson> <meta.ndjson> <seed>
+ *   dep_replay perms   <scenario> <limit>     <trace.ndjson> <meta.ndjson>     every order of the ops, one thread
  *
- * scenario file:   mode counter|mask / flows K K ... / need N / threads T / t <tid> f:i f:i ...
- *   flow kinds (what ptgpp generates for them is built below):
- *     T  data flow fed by a task                 C  data flow read from a data collection
- *     Q1 data flow `cond ? task : collection`, cond true      Q0 the same, cond false
- *     K  control flow, unconditional             K1 control flow with a true guard      X  the same, false guard
- *     G<k> control gather of k controls (counter mode only)
+ * scenario file:   mode counter|mask / k <instance> / flows F F ... / need N / threads T / t <tid> f:i f:i ...
+ *   flow F = D:<dep>,<dep>,... (data flow) or K:<dep>,... (control flow): the `<-` lines of the flow IN ORDER,
+ *   turned into parsec_flow_t.dep_in[] / parsec_dep_t the way parsec-ptgpp does (jdf2c.c):
+ *     dep = <guard><source>[n]
+ *     guard   -  no guard (cond = NULL)     1 / 0  expression that is true / false
+ *             p / z  expression over the parameter of the instance: k > 0 / k == 0   (task.locals[0].value = k)
+ *     source  t  a predecessor task (task_class_id of that class)
+ *             c  data collection, n  NEW, u  NULL  (all three: PARSEC_LOCAL_DATA_TASK_CLASS_ID)
+ *     n       control gather of n controls (ctl_gather_nb; counter mode only)
+ *   `D:` without dep = WRITE flow typed by `<- NEW` (no dep_in, PARSEC_FLOW_HAS_IN_DEPS)
+ *   e.g.  RW A <- (k > 0) ? A T(k-1)         D:pt,-c         A <- c ? A T(..) : dataA(..)   D:1t,0c  (c true)
+ *              <- dataA(k)
  *   op f:i = release input number i (1..N), which belongs to flow f (1-based index in `flows`)
  */
 #include "parsec/parsec_config.h"
@@ -26,12 +33,13 @@
 #include "vsched.h"
 
 #define MAXF 19    /* MAX_PARAM_COUNT - 1 */
+#define MAXD 8     /* <= MAX_DEP_IN_COUNT */
 #define MAXOPS 16
 #define MAXTHR 16
 typedef struct { int f; int i; } op_t;
 
-static int use_mask, nflows, need, nthreads, nops[MAXTHR];
-static char kinds[MAXF][8];
+static int use_mask, nflows, need, nthreads, nops[MAXTHR], instance_k = 1;
+static char kinds[MAXF][64];
 static op_t ops[MAXTHR][MAXOPS];
 static int results[MAXTHR][MAXOPS];
 static int controlled = 1;
@@ -41,7 +49,7 @@ static parsec_taskpool_t tp;
 static parsec_task_class_t tc;
 static parsec_task_t task;
 static parsec_flow_t flows[MAXF];
-static parsec_dep_t deps_in[MAXF][2];
+static parsec_dep_t deps_in[MAXF][MAXD];
 #define NINST 32                 /* task instances (dependency words) per round in stress mode */
 static parsec_dependency_t depwords[NINST] __attribute__((aligned(64)));
 #define depword depwords[0]
@@ -49,11 +57,13 @@ static volatile int arrived[NINST];
 
 static int32_t fn_true(const parsec_taskpool_t *p, const parsec_assignment_t *l) { (void)p; (void)l; return 1; }
 static int32_t fn_false(const parsec_taskpool_t *p, const parsec_assignment_t *l) { (void)p; (void)l; return 0; }
+static int32_t fn_kpos(const parsec_taskpool_t *p, const parsec_assignment_t *l) { (void)p; return l[0].value > 0; }
+static int32_t fn_kzero(const parsec_taskpool_t *p, const parsec_assignment_t *l) { (void)p; return l[0].value == 0; }
 #define GFN(k) static int32_t fn_g##k(const parsec_taskpool_t *p, const parsec_assignment_t *l) { (void)p; (void)l; return k; }
 GFN(1) GFN(2) GFN(3) GFN(4) GFN(5) GFN(6) GFN(7) GFN(8) GFN(9) GFN(10) GFN(11) GFN(12) GFN(13) GFN(14) GFN(15) GFN(16)
 static parsec_expr_op_int32_inline_func_t gfns[17] = { NULL, fn_g1, fn_g2, fn_g3, fn_g4, fn_g5, fn_g6, fn_g7, fn_g8,
                                                        fn_g9, fn_g10, fn_g11, fn_g12, fn_g13, fn_g14, fn_g15, fn_g16 };
-static parsec_expr_t expr_true, expr_false, expr_g[17];
+static parsec_expr_t expr_true, expr_false, expr_kpos, expr_kzero, expr_g[17];
 
 static void die(const char *m) { fprintf(stderr, "dep_replay: %s\n", m); exit(3); }
 
@@ -70,6 +80,8 @@ static void build_task_class(void)
     int f, k, has_in_in = 0, has_gather = 0;
     mk_inline(&expr_true, fn_true);
     mk_inline(&expr_false, fn_false);
+    mk_inline(&expr_kpos, fn_kpos);
+    mk_inline(&expr_kzero, fn_kzero);
     for( k = 1; k <= 16; k++ ) mk_inline(&expr_g[k], gfns[k]);
     memset(&tc, 0, sizeof(tc));
     memset(flows, 0, sizeof(flows));
@@ -77,48 +89,59 @@ static void build_task_class(void)
     tc.name = "VERIF";
     tc.task_class_id = 0;
     tc.nb_flows = (uint8_t)nflows;
+    tc.nb_parameters = 1;
+    tc.nb_locals = 1;
     for( f = 0; f < nflows; f++ ) {
         parsec_flow_t *fl = &flows[f];
-        parsec_dep_t *d0 = &deps_in[f][0], *d1 = &deps_in[f][1];
-        const char *kd = kinds[f];
+        const char *kd = kinds[f], *p;
+        int ctl = (kd[0] == 'K'), nd = 0, in_deps = 0;
+        if( (kd[0] != 'D' && kd[0] != 'K') || kd[1] != ':' ) die("bad flow");
         fl->name = kinds[f];
         fl->flow_index = (uint8_t)f;
         fl->sym_type = PARSEC_SYM_IN;
-        d0->belongs_to = fl; d1->belongs_to = fl;
-        d0->task_class_id = 1; d1->task_class_id = 1;          /* "another task class" */
-        if( !strcmp(kd, "T") ) {
+        for( p = kd + 2; *p; ) {
+            parsec_dep_t *d;
+            if( nd >= MAXD || nd >= MAX_DEP_IN_COUNT ) die("too many input deps");
+            d = &deps_in[f][nd];
+            d->belongs_to = fl;
+            d->dep_index = (uint8_t)nd;
+            switch( *p++ ) {                                  /* guard: jdf2c.c jdf_generate_dataflow, .cond */
+            case '-': d->cond = NULL; break;
+            case '1': d->cond = &expr_true; break;
+            case '0': d->cond = &expr_false; break;
+            case 'p': d->cond = &expr_kpos; break;
+            case 'z': d->cond = &expr_kzero; break;
+            default: die("bad guard");
+            }
+            if( ctl && NULL != d->cond ) in_deps = 1;         /* control flow: JDF_GUARD_BINARY => HAS_IN_DEPS */
+            switch( *p++ ) {                                  /* source: jdf_generate_dependency, .task_class_id */
+            case 't': d->task_class_id = 1; d->flow = fl; break;         /* "another task class" */
+            case 'c': case 'n': case 'u':                     /* NULL == call->var: memory reference, NEW, NULL */
+                if( ctl ) die("control flows come from tasks");
+                d->task_class_id = PARSEC_LOCAL_DATA_TASK_CLASS_ID;
+                in_deps = 1;                                  /* data flow: a dep that is not a task => HAS_IN_DEPS */
+                break;
+            default: die("bad source");
+            }
+            if( isdigit((unsigned char)*p) ) {
+                k = (int)strtol(p, (char**)&p, 10);
+                if( !ctl || k < 1 || k > 16 || use_mask ) die("bad gather");
+                d->ctl_gather_nb = &expr_g[k];
+                has_gather = 1;
+            }
+            fl->dep_in[nd++] = d;
+            if( *p == ',' ) p++; else if( *p ) die("bad dep list");
+        }
+        if( ctl ) {
+            if( 0 == nd ) die("control flow without dep");
+            fl->flow_flags = PARSEC_FLOW_ACCESS_NONE;
+        } else if( 0 == nd ) {                                /* WRITE flow, `<- NEW` only declares the type */
+            fl->flow_flags = PARSEC_FLOW_ACCESS_WRITE;
+            in_deps = 1;
+        } else {
             fl->flow_flags = PARSEC_FLOW_ACCESS_READ;
-            fl->dep_in[0] = d0;
-        } else if( !strcmp(kd, "C") ) {
-            fl->flow_flags = PARSEC_FLOW_ACCESS_READ | PARSEC_FLOW_HAS_IN_DEPS;
-            d0->task_class_id = PARSEC_LOCAL_DATA_TASK_CLASS_ID;
-            fl->dep_in[0] = d0;
-            has_in_in = 1;
-        } else if( !strcmp(kd, "Q1") || !strcmp(kd, "Q0") ) {
-            /* A <- cond ? A T(..) : dc(..)   ==> two deps, the second guarded by the negated condition */
-            int c = (kd[1] == '1');
-            fl->flow_flags = PARSEC_FLOW_ACCESS_READ | PARSEC_FLOW_HAS_IN_DEPS;
-            d0->cond = c ? &expr_true : &expr_false;
-            d1->cond = c ? &expr_false : &expr_true;
-            d1->task_class_id = PARSEC_LOCAL_DATA_TASK_CLASS_ID;
-            fl->dep_in[0] = d0; fl->dep_in[1] = d1;
-            has_in_in = 1;
-        } else if( !strcmp(kd, "K") ) {
-            fl->flow_flags = PARSEC_FLOW_ACCESS_NONE;
-            fl->dep_in[0] = d0;
-        } else if( !strcmp(kd, "K1") || !strcmp(kd, "X") ) {
-            fl->flow_flags = PARSEC_FLOW_ACCESS_NONE | PARSEC_FLOW_HAS_IN_DEPS;
-            d0->cond = (kd[0] == 'K') ? &expr_true : &expr_false;
-            fl->dep_in[0] = d0;
-            has_in_in = 1;
-        } else if( kd[0] == 'G' ) {
-            k = atoi(kd + 1);
-            if( k < 1 || k > 16 || use_mask ) die("bad gather");
-            fl->flow_flags = PARSEC_FLOW_ACCESS_NONE;
-            d0->ctl_gather_nb = &expr_g[k];
-            fl->dep_in[0] = d0;
-            has_gather = 1;
-        } else die("bad flow kind");
+        }
+        if( in_deps ) { fl->flow_flags |= PARSEC_FLOW_HAS_IN_DEPS; has_in_in = 1; }
         tc.in[f] = fl;
     }
     tc.in[nflows] = NULL;
@@ -131,6 +154,7 @@ static void build_task_class(void)
     memset(&task, 0, sizeof(task));
     task.taskpool = &tp;
     task.task_class = &tc;
+    task.locals[0].value = instance_k;
 }
 
 static void parse_scenario(const char *path)
@@ -143,11 +167,13 @@ static void parse_scenario(const char *path)
         if( !tok ) continue;
         if( !strcmp(tok, "mode") ) use_mask = !strcmp(strtok(NULL, " \t\n"), "mask");
         else if( !strcmp(tok, "need") ) need = atoi(strtok(NULL, " \t\n"));
+        else if( !strcmp(tok, "k") ) instance_k = atoi(strtok(NULL, " \t\n"));
         else if( !strcmp(tok, "threads") ) nthreads = atoi(strtok(NULL, " \t\n"));
         else if( !strcmp(tok, "flows") ) {
             while( (tok = strtok(NULL, " \t\n")) ) {
                 if( nflows >= MAXF ) die("too many flows");
-                strncpy(kinds[nflows++], tok, 7);
+                if( strlen(tok) >= sizeof(kinds[0]) ) die("flow too long");
+                strcpy(kinds[nflows++], tok);
             }
         } else if( !strcmp(tok, "t") ) {
             int t = atoi(strtok(NULL, " \t\n"));
@@ -188,14 +214,19 @@ static void body(int tid, void *arg)
 static FILE *meta;
 static long nexec = 0;
 
-static void finish_execution(vs_run_t *r)
+static void dump_history(int deadlock)
 {
-    int t, i;
     if( nexec++ ) vt_reset_marker();
     vt_raw("{\"e\":\"init\",\"n\":%d,\"mode\":\"%s\"}", need, use_mask ? "mask" : "counter");
     vt_dump();
-    if( r && r->deadlock ) vt_raw("{\"e\":\"Timeout\"}");
+    if( deadlock ) vt_raw("{\"e\":\"Timeout\"}");
     else vt_raw("{\"e\":\"end\"}");
+}
+
+static void finish_execution(vs_run_t *r)
+{
+    int t, i;
+    dump_history(r && r->deadlock);
     fprintf(meta, "{\"sched\":\"");
     if( r ) for( i = 0; i < r->nsteps; i++ ) fputc('0' + r->who[i], meta);
     fprintf(meta, "\",\"deadlock\":%d,\"dep\":%d,\"ret\":[", r ? r->deadlock : 0, (int)(depword & 0x3fffffff));
@@ -288,6 +319,41 @@ int main(int argc, char **argv)
         }
         for( t = 0; t < nthreads; t++ ) pthread_join(th[t], NULL);
         pthread_barrier_destroy(&gate);
+    } else if( !strcmp(argv[1], "perms") ) {
+        /* every order of all the releases of the scenario, one after the other on this (uncontrolled) thread */
+        op_t all[MAXOPS];
+        int idx[MAXOPS], ret[MAXOPS], n = 0, t, i, j, more = 1;
+        long done = 0, limit = atol(argv[3]);
+        controlled = 0;
+        for( t = 0; t < nthreads; t++ )
+            for( i = 0; i < nops[t]; i++ ) {
+                if( n >= MAXOPS ) die("too many ops");
+                all[n++] = ops[t][i];
+            }
+        for( i = 0; i < n; i++ ) idx[i] = i;
+        while( more && done < limit ) {
+            setup();
+            for( i = 0; i < n; i++ ) {
+                op_t *o = &all[idx[i]];
+                vt_ev("\"e\":\"inv\",\"t\":1,\"i\":%d", o->i);
+                ret[i] = tc.update_deps(&tp, &task, &depword, NULL, NULL, &flows[o->f - 1]);
+                vt_ev("\"e\":\"res\",\"t\":1,\"i\":%d,\"r\":%d", o->i, ret[i]);
+            }
+            dump_history(0);
+            fprintf(meta, "{\"order\":[");
+            for( i = 0; i < n; i++ ) fprintf(meta, "%s%d", i ? "," : "", all[idx[i]].i);
+            fprintf(meta, "],\"dep\":%d,\"ret\":[", (int)(depword & 0x3fffffff));
+            for( i = 0; i < n; i++ ) fprintf(meta, "%s%d", i ? "," : "", ret[i]);
+            fprintf(meta, "]}\n");
+            done++;
+            /* next permutation of idx in lexicographic order */
+            for( i = n - 2; i >= 0 && idx[i] > idx[i + 1]; i-- ) ;
+            if( i < 0 ) { more = 0; break; }
+            for( j = n - 1; idx[j] < idx[i]; j-- ) ;
+            t = idx[i]; idx[i] = idx[j]; idx[j] = t;
+            for( i++, j = n - 1; i < j; i++, j-- ) { t = idx[i]; idx[i] = idx[j]; idx[j] = t; }
+        }
+        fprintf(meta, "{\"explored\":%ld,\"exhaustive\":%s}\n", done, more ? "false" : "true");
     } else die("bad mode");
     fclose(meta);
     vt_close();
